@@ -20,7 +20,7 @@ cls(WC, fields={"buffer": "bytes", "h11_connection": "obj M_h11"},
 fn(WC + ".receive_data", params={"data": "bytes"}, modifies=["self.buffer", "self.g_fed"], effect="atomic",
    ghost_pre=["self.g_fed = cat_(self.g_fed, data)"],
    ensures=[("wsconn.receive", "self.buffer == cat(old(self.buffer), data)", "C10")], props=("C10", "C13"))
-fn(WC + ".next_event", params={}, modifies=["self.buffer", "self.g_delivered"], effect="atomic",
+fn(WC + ".next_event", params={}, modifies=["self.buffer", "self.g_delivered"], effect="atomic", returns="obj hypercorn.protocol.events:Data | sentinel h11.NEED_DATA",
    ensures=[("wsconn.next.data", "implies(len(old(self.buffer)) > 0, isinstance(result, Data) and result.data == old(self.buffer) and len(self.buffer) == 0)", "C10"),
             ("wsconn.next.need", "implies(len(old(self.buffer)) == 0, result is h11.NEED_DATA)", "C10")],
    ghost_post=["self.g_delivered = cat_(self.g_delivered, result.data) if isinstance(result, Data) else self.g_delivered"],
@@ -68,7 +68,9 @@ fn(H1 + "._handle_events", params={}, task="reader", model_opts={"h11_server_hea
 REQ = "obj h11:Request"
 
 fn(H1 + "._check_protocol", params={"event": REQ}, task="reader", model_opts={"h11_server_headers_ok": True},
-   requires=[("check.pre.request-just-read", "isinstance(self.connection, h11.Connection) and self.connection.our_state is h11.SEND_RESPONSE and self.stream is None")],
+   requires=[("check.pre.request-just-read.conn", "isinstance(self.connection, h11.Connection)"),
+             ("check.pre.request-just-read.state", "self.connection.our_state is h11.SEND_RESPONSE"),
+             ("check.pre.request-just-read.no-stream", "self.stream is None")],
    raises={"H2CProtocolRequiredError": None, "H2ProtocolAssumedError": None},
    loops={0: {"locals": {"name": "bstr", "value": "bstr", "sanitised_name": "str"}}},
    ensures=[
@@ -145,26 +147,60 @@ cls(M + "H2CProtocolRequiredError", fields={"data": "bytes", "headers": "hdrs", 
 cls(M + "H2ProtocolAssumedError", fields={"data": "bytes"})
 
 # ------------------------------------------------------------------------------ ProtocolWrapper
+# The wrapper is a dispatcher: it sees the two protocol classes only through these ports (their
+# own contracts are discharged above and in d_h2_protocol.py).  g_eof_fed: RawData(b'') has been
+# handed over (H11Protocol.handle's own precondition says the same with h11's recv_closed flag).
 PW = "hypercorn.protocol:ProtocolWrapper"
+H1PORT, H2PORT = "pyvc:H11Port", "pyvc:H2Port"
+cls(H1PORT, fields={}, ghost={"g_eof_fed": "bool"}, interface=True, view_of=H1,
+    rely=[("H11Port.rely.eof", "self.g_eof_fed == old(self.g_eof_fed)", "C13")])
+cls(H2PORT, fields={}, ghost={"g_initiated": "bool"}, interface=True, view_of="hypercorn.protocol.h2:H2Protocol",
+    rely=[("H2Port.rely.initiated", "implies(old(self.g_initiated), self.g_initiated)", "C13")])
+fn(H1PORT + ".initiate", params={}, effect="yields", assume_only=True, trusted_reason="interface of H11Protocol.initiate as seen by the wrapper")
+fn(H1PORT + ".handle", params={"event": _ev.IO_EVENTS}, effect="yields", assume_only=True,
+   requires=[("h11port.handle.pre.no-data-after-eof", "implies(isinstance(event, RawData) and self.g_eof_fed, len(event.data) == 0)")],
+   raises={"H2CProtocolRequiredError": None, "H2ProtocolAssumedError": None},
+   ghost_post=["self.g_eof_fed = self.g_eof_fed or (isinstance(event, RawData) and len(event.data) == 0)"],
+   trusted_reason="interface of H11Protocol.handle as seen by the wrapper (its contract: fn H11Protocol.handle)")
+fn(H2PORT + ".initiate", params={"headers": "opaque", "settings": "opaque"}, model_opts={"defaults": {"headers": None, "settings": None}},
+   effect="yields", assume_only=True, ghost_post=["self.g_initiated = True"],
+   trusted_reason="interface of H2Protocol.initiate as seen by the wrapper (findings F13/F13b are obligations of H2Protocol.initiate itself)")
+fn(H2PORT + ".handle", params={"event": _ev.IO_EVENTS}, effect="yields", assume_only=True,
+   requires=[("h2port.handle.pre.initiated", "self.g_initiated")],
+   trusted_reason="interface of H2Protocol.handle as seen by the wrapper")
+PW_VIEWS = {"views": {H1: H1PORT, "hypercorn.protocol.h2:H2Protocol": H2PORT}}
+
 cls(PW, fields={"app": "opaque", "config": "obj hypercorn.config:Config", "context": "obj hypercorn.typing:WorkerContext",
                 "task_group": "obj hypercorn.typing:TaskGroup", "ssl": "bool", "client": "opaque", "server": "opaque", "send": "opaque",
-                "state": "opaque", "protocol": "obj " + H1 + " | obj hypercorn.protocol.h2:H2Protocol"},
-    callbacks={"send": Callback(name="send", effect="yields", record="sent")})
+                "state": "opaque", "protocol": "obj " + H1PORT + " | obj " + H2PORT},
+    callbacks={"send": Callback(name="send", effect="yields", record="sent")},
+    # only the reader task (handle) swaps the protocol object
+    task_stable={"reader": ["protocol"]})
 
-fn(PW + ".__init__",
+fn(PW + ".__init__", model_opts=PW_VIEWS,
    params={"app": "opaque", "config": "obj hypercorn.config:Config", "context": "obj hypercorn.typing:WorkerContext", "task_group": "obj hypercorn.typing:TaskGroup",
            "state": "opaque", "ssl": "bool", "client": "opaque", "server": "opaque", "send": "opaque", "alpn_protocol": "opt str"},
    ensures=[("C13.alpn", "isinstance(self.protocol, H2Protocol) == (alpn_protocol == 'h2')", "C13"),
-            ("C13.alpn.h11", "isinstance(self.protocol, H11Protocol) == (alpn_protocol != 'h2')", "C13")],
+            ("C13.alpn.h11", "isinstance(self.protocol, H11Protocol) == (alpn_protocol != 'h2')", "C13"),
+            # the protocol gets exactly what the server handed to the wrapper
+            ("C13.alpn.wiring", "same(call_args('Protocol.__init__')[1], app) and same(call_args('Protocol.__init__')[2], config) and same(call_args('Protocol.__init__')[3], context) "
+             "and same(call_args('Protocol.__init__')[4], task_group) and same(call_args('Protocol.__init__')[5], state) and call_args('Protocol.__init__')[6] == ssl "
+             "and same(call_args('Protocol.__init__')[7], client) and same(call_args('Protocol.__init__')[8], server)", "C13,C14")],
    props=("C13",))
 
+fn(PW + ".initiate", params={}, task="reader", model_opts=PW_VIEWS,
+   ensures=[("C13.initiate.delegates", "call_index('Port.initiate') >= 0", "C13")], props=("C13",))
+
 # what the wrapper needs from the two protocols
-fn(PW + ".handle", params={"event": _ev.IO_EVENTS}, task="reader",
-   requires=[("wrapper.handle.pre.no-data-after-eof", "implies(isinstance(event, RawData) and isinstance(self.protocol, H11Protocol) and isinstance(self.protocol.connection, lib_h11.Connection), not self.protocol.connection.recv_closed or len(event.data) == 0)")],
+fn(PW + ".handle", params={"event": _ev.IO_EVENTS}, task="reader", model_opts=PW_VIEWS,
+   requires=[("wrapper.handle.pre.no-data-after-eof", "implies(isinstance(event, RawData) and isinstance(self.protocol, H11Protocol) and self.protocol.g_eof_fed, len(event.data) == 0)"),
+             ("wrapper.handle.pre.initiated", "implies(isinstance(self.protocol, H2Protocol), self.protocol.g_initiated)")],
    ensures=[
-       # C13.handover: after a protocol switch the new HTTP/2 protocol gets exactly the bytes h11 had
-       # not consumed, once, and only if there are any
-       ("C13.handover.h2", "implies(trace_any('calls', 'x', x[0] == 'H2Protocol.initiate'), isinstance(self.protocol, H2Protocol))", "C13"),
-       ("C13.no-switch-keeps", "implies(not trace_any('calls', 'x', x[0] == 'H2Protocol.initiate'), same(self.protocol, old(self.protocol)))", "C13"),
+       # C13.handover: after a protocol switch the wrapper holds a new, initiated HTTP/2 protocol
+       # that has been given exactly the bytes h11 had not consumed, once, and only if there are any
+       ("C13.handover.h2", "implies(call_index('H2Port.initiate') >= 0, isinstance(self.protocol, H2Protocol) and self.protocol.g_initiated and not same(self.protocol, old(self.protocol)))", "C13"),
+       ("C13.no-switch-keeps", "implies(call_index('H2Port.initiate') < 0, same(self.protocol, old(self.protocol)))", "C13"),
+       ("C13.handover.event-first", "call_index('Port.handle') == 0 and same(call_args('Port.handle')[0], old(self.protocol)) and same(call_args('Port.handle')[1], event)", "C13"),
+       ("C13.handover.only-after-h11-says-so", "implies(call_index('H2Port.initiate') >= 0, isinstance(old(self.protocol), H11Protocol))", "C13"),
    ],
    props=("C04", "C13"))
